@@ -50,3 +50,64 @@ Definition apply_date (cur : res Z) (d : date_opt) : res Z :=
 Definition declared_date (ds : list date_opt) (env : option Z) : res Z :=
   do z <- fold_left apply_date ds (Ok 0%Z);
   Ok (match env with Some e => e | None => z end).
+
+(* ---- SOURCE_DATE_EPOCH as build.New reads it ------------------------------------------------
+     if v, ok := os.LookupEnv("SOURCE_DATE_EPOCH"); ok && len(strings.TrimSpace(v)) != 0 {
+         sec, err := strconv.ParseInt(v, 10, 64)      // of v itself, NOT of the trimmed text
+         if err != nil { return nil, … }
+         bc.o.SourceDateEpoch = time.Unix(sec, 0).UTC() }
+   A value made of white space only is ignored; anything else must be a base-10 int64 with an
+   optional sign and nothing around it (so " 5" fails the build). *)
+(* strings.TrimSpace leaves nothing: only Unicode White_Space runes, here in UTF-8 *)
+Fixpoint all_space (s : string) : bool :=
+  match s with
+  | EmptyString => true
+  | String c r =>
+      let b := N_of_ascii c in
+      if ((9 <=? b) && (b <=? 13) || (b =? 32))%N then all_space r               (* \t \n \v \f \r, blank *)
+      else match r with
+           | String c1 r1 =>
+               let b1 := N_of_ascii c1 in
+               if ((b =? 194) && ((b1 =? 133) || (b1 =? 160)))%N then all_space r1            (* U+0085, U+00A0 *)
+               else match r1 with
+                    | String c2 r2 =>
+                        let b2 := N_of_ascii c2 in
+                        if ((b =? 225) && (b1 =? 154) && (b2 =? 128)                         (* U+1680 *)
+                            || (b =? 226) && (b1 =? 128) && ((128 <=? b2) && (b2 <=? 138)     (* U+2000..200A *)
+                                                             || (b2 =? 168) || (b2 =? 169) || (b2 =? 175)) (* U+2028/9, 202F *)
+                            || (b =? 226) && (b1 =? 129) && (b2 =? 159)                       (* U+205F *)
+                            || (b =? 227) && (b1 =? 128) && (b2 =? 128))%N                    (* U+3000 *)
+                        then all_space r2 else false
+                    | EmptyString => false
+                    end
+           | EmptyString => false
+           end
+  end.
+
+(* value of a non-empty string of ASCII digits, most significant first *)
+Definition is_dec_digit (c : ascii) : bool := let n := N_of_ascii c in (48 <=? n)%N && (n <=? 57)%N.
+Definition dec_value (u : string) : Z :=
+  fold_left (fun acc c => (10 * acc + (Z.of_N (N_of_ascii c) - 48))%Z) (list_ascii_of_string u) 0%Z.
+Definition all_digits (u : string) : bool :=
+  match u with EmptyString => false | _ => forallb is_dec_digit (list_ascii_of_string u) end.
+Definition int64_min : Z := (- 9223372036854775808)%Z.
+Definition int64_max : Z := 9223372036854775807%Z.
+(* strconv.ParseInt(s, 10, 64): None = error (syntax or range) *)
+Definition parse_int64 (s : string) : option Z :=
+  let '(neg, u) := match s with
+                   | String c r => if Ascii.eqb c "-" then (true, r) else if Ascii.eqb c "+" then (false, r) else (false, s)
+                   | EmptyString => (false, s)
+                   end in
+  if all_digits u then
+    let z := if neg then (- dec_value u)%Z else dec_value u in
+    if (int64_min <=? z)%Z && (z <=? int64_max)%Z then Some z else None
+  else None.
+
+(* the creation time declared by the options and the environment as build.New sees them *)
+Definition declared_date_env (ds : list date_opt) (env : option string) : res Z :=
+  do z <- fold_left apply_date ds (Ok 0%Z);
+  match env with
+  | None => Ok z
+  | Some v => if all_space v then Ok z
+              else match parse_int64 v with Some e => Ok e | None => Err end
+  end.
